@@ -35,7 +35,7 @@ def corpus():
         "result.stress 500",      # the reporter's tick body against the controller's pre-Stop calls on one Result
         "run prop=C05 mode=staged stages=0s:4,300ms:4 freq=100 dist=none dur=2500 conc=4 body=10",     # the trigger's own duration ends the run
         "run prop=C05 mode=file dur=2500 conc=3 file=c:200:3/100ms;u:200:2 body=10",
-    ]
+    ] + __import__("vlib.props._plan", fromlist=["x"]).cli_corpus_for("C05")
 
 
 def generate(rng, tier):
@@ -71,6 +71,15 @@ def generate(rng, tier):
     for _ in range({"quick": 0, "thorough": 6, "search": 2}[tier]):
         out.append("result.stress %d" % rng.choice([1000, 3000]))
     return out
+
+
+def compare(rec):
+    if rec["case"].startswith("cli "):
+        from . import _plan
+        return _plan.cli_compare(rec)
+    if rec["model"] == "-":
+        return None
+    return None if rec["impl"] == rec["model"] else "model=%s impl=%s" % (rec["model"], rec["impl"])
 
 
 def nontrivial_key(rec):
